@@ -88,7 +88,7 @@ def statp(changes):
 
 
 def run(ctx):
-    ctx.rule = ("histories of 0-12 STATP messages (0-6 records each, repeated positions, byte-identical repeats of earlier messages, the simulator's 1-byte change) interleaved with refreshes that "
+    ctx.rule = ("histories of 0-12 (one of them 230) STATP messages (0-6 records each, repeated positions, byte-identical repeats of earlier messages, the simulator's 1-byte change) interleaved with refreshes that "
                 "overwrite the same positions, on 48-byte blocks; the real long-lived handler objects of both clients; block after every event and STATQ "
                 "datagrams compared with Model/Partial.v; a malformed stream adds truncated / over-long STATP and positions beyond the block; "
                 "non-trivial = history with at least two partial messages that touch a common position")
@@ -102,8 +102,9 @@ def run(ctx):
         hot = [rng.randrange(n - 2) for _ in range(3)]
         evs, ups = [], []
         malformed = h % 10 == 9
-        for _ in range(rng.randrange(0, 13)):
-            r = rng.random()
+        long_session = (h == 5)      # one long session: a couple of hundred acknowledgements on one connection (the protocol counter wraps)
+        for _ in range(rng.randrange(0, 13) if not long_session else 230):
+            r = rng.random() if not long_session else 0.3
             prevp = [j for j, u in enumerate(ups) if u[0] == "P" and u[1]]
             if r < 0.14 and prevp and not malformed:
                 # the spa sends a message it has sent before, byte for byte (same positions, same values) - mostly the latest
